@@ -140,7 +140,7 @@ def run(ctx):
             return sub(name)
     ctx.sub = locked_sub
     with cf.ThreadPoolExecutor(max_workers=4) as ex:
-        futs = [ex.submit(ctx.model_check, "MC_Player", m + s + ".cfg", workers=4, timeout=240 if q else 2400) for m, s in mcs]
+        futs = [ex.submit(ctx.model_check, "MC_Player", m + s + ".cfg", workers=4, timeout=900 if q else 2400) for m, s in mcs]
         for f in futs:
             f.result()
     # binding
